@@ -264,8 +264,8 @@ CHECKS['C14'] = dict(
     assumptions=COMMON_ASSUME + ['stores made by JIT-emitted code are not instrumented (byte-equality oracle only there)', 'TSan sees races between accesses within its history window; liveness is out of reach',
                                  'interleavings are produced by the OS scheduler over generated yields, not enumerated'],
     stages=[
-        dict(name='tsan', harness=H('c14', ['harness/c14_threads.cpp'], variant='tsan'), workers={'quick': 8, 'thorough': 8}, env={'VERIF_CASE_TIMEOUT': '900'},
-             plan={'quick': 'workload=40:30', 'thorough': 'workload=240:60,workload_owncache=48:30'}),
+        dict(name='tsan', harness=H('c14', ['harness/c14_threads.cpp'], variant='tsan'), workers={'quick': 8, 'thorough': 8}, env={'VERIF_CASE_TIMEOUT': '900', 'TSAN_OPTIONS': 'halt_on_error=0:report_signal_unsafe=0:history_size=7'},
+             plan={'quick': 'workload=40:30,workload_dsinit=8:30', 'thorough': 'workload=240:60,workload_owncache=48:30,workload_dsinit=64:60'}),
     ],
 )
 
